@@ -356,9 +356,12 @@ impl Visitor<Diagnostic> for RuleGraphReferenceableElements {
         // Current context has a reference to this function block
         match &self.current_from {
             Some(from) => {
+                // The edge goes from the declaration that is referred to, to the declaration
+                // that refers to it (the same direction as for the type declarations) so
+                // that a cycle through both kinds of reference is a cycle in the graph.
                 let from = self.declarations.add_node(from);
                 let to = self.declarations.add_node(&init.type_name.name);
-                self.declarations.graph.add_edge(from, to, ());
+                self.declarations.graph.add_edge(to, from, ());
             }
             None => return Err(Diagnostic::todo(file!(), line!())),
         }
@@ -382,7 +385,7 @@ impl Visitor<Diagnostic> for RuleGraphReferenceableElements {
                         // We only care about these because these may be references to a function block
                         let from = self.declarations.add_node(from);
                         let to = self.declarations.add_node(&fb.type_name.name);
-                        self.declarations.graph.add_edge(from, to, ());
+                        self.declarations.graph.add_edge(to, from, ());
                     }
                     InitialValueAssignmentKind::Subrange(_) => {}
                     InitialValueAssignmentKind::Structure(_) => {}
@@ -391,7 +394,7 @@ impl Visitor<Diagnostic> for RuleGraphReferenceableElements {
                         // We nly care about these because these may be references to a function block
                         let from = self.declarations.add_node(from);
                         let to = self.declarations.add_node(&lrt.name);
-                        self.declarations.graph.add_edge(from, to, ());
+                        self.declarations.graph.add_edge(to, from, ());
                     }
                 }
             }
